@@ -491,17 +491,24 @@ pub fn run_shard(
                 Err(TestError::Fail(_, v)) => {
                     // re-run the minimal tape to obtain the full failure record; the code under test may
                     // depend on hash-map iteration order, so a failure is given several chances to recur
+                    // every attempt on a fresh thread, so that per-thread state left behind by earlier
+                    // cases of this shard cannot mask (or fake) the failure
                     let rerun = |tape_data: &Vec<u32>| -> Option<Failure> {
                         for _ in 0..REPLAY_ATTEMPTS {
-                            let mut c2 = Ctx::new(tier);
-                            c2.counting = false;
-                            let mut tape = Tape::new(tape_data.clone());
-                            match catch(|| f(&mut tape, &mut c2)) {
-                                Ok(Err(fl)) => return Some(fl),
-                                Ok(Ok(())) => continue,
-                                Err(p) => {
-                                    return Some(panic_failure(&p))
+                            let data = tape_data.clone();
+                            let one = move || -> Option<Failure> {
+                                let mut c2 = Ctx::new(tier);
+                                c2.counting = false;
+                                let mut tape = Tape::new(data);
+                                match catch(|| f(&mut tape, &mut c2)) {
+                                    Ok(Err(fl)) => Some(fl),
+                                    Ok(Ok(())) => None,
+                                    Err(p) => Some(panic_failure(&p)),
                                 }
+                            };
+                            let r = std::thread::Builder::new().stack_size(STACK).spawn(one).ok().and_then(|h| h.join().ok()).flatten();
+                            if r.is_some() {
+                                return r;
                             }
                         }
                         None
